@@ -4,6 +4,7 @@
 package world
 
 import (
+	"verifsim/simfs"
 	"verifsim/simnet"
 	"verifsim/spec"
 )
@@ -30,6 +31,8 @@ type Config struct {
 	UserDelays     bool     `json:"user_delays,omitempty"`
 	RTSeed         uint64   `json:"rtseed"`
 	Race           bool     `json:"race,omitempty"`
+	// Cgo selects the binary built with cgo (DataDog zstd instead of klauspost).
+	Cgo bool `json:"cgo,omitempty"`
 }
 
 // Step is one client action.
@@ -77,9 +80,26 @@ type Oracle struct {
 	Capacity  bool `json:"capacity,omitempty"`  // C14 monitor
 	// SingleRunner: no task has two Executor.Run calls in flight at once (C19).
 	SingleRunner bool `json:"single_runner,omitempty"`
-	Placement bool `json:"placement,omitempty"` // C05: key -> shard tables of writerfunc sites
+	Placement bool `json:"placement,omitempty"`
+	// CacheFiles: every published cache shard file decodes to exactly its shard's reference rows (C13).
+	CacheFiles bool `json:"cache_files,omitempty"`
+	// SiteCalls: report user-function call counts per site (and per shard for readers).
+	SiteCalls bool `json:"site_calls,omitempty"` // C05: key -> shard tables of writerfunc sites
 	// FaultsStop: liveness clause applies (all steps must return).
 	Liveness bool `json:"liveness,omitempty"`
+}
+
+// FSPlan configures the simulated file system of a case.
+type FSPlan struct {
+	// Load: snapshot to load before the run (durable state of an earlier process).
+	Load string `json:"load,omitempty"`
+	// Dump: where to write the published files at the end (or at a crash).
+	Dump   string         `json:"dump,omitempty"`
+	Faults []*simfs.Fault `json:"faults,omitempty"`
+	// Preload holds files to publish before the run (base64 by encoding/json).
+	Preload map[string][]byte `json:"preload,omitempty"`
+	// Remove lists published files to delete before the run (after Load).
+	Remove []string `json:"remove,omitempty"`
 }
 
 // Case is a complete, explicit, replayable case.
@@ -91,7 +111,10 @@ type Case struct {
 	Script   []Step          `json:"script"`
 	Faults   []*simnet.Fault `json:"faults,omitempty"`
 	UFaults  []*UFault       `json:"ufaults,omitempty"`
+	FS       *FSPlan         `json:"fs,omitempty"`
 	Oracle   Oracle          `json:"oracle"`
+	// Meta is free-form generator metadata for orchestrator-side oracles.
+	Meta map[string]any `json:"meta,omitempty"`
 	// WantRows asks the child to include canonical rows in the outcome.
 	WantRows bool `json:"want_rows,omitempty"`
 	// WantEvents asks the child to include the seam log in the outcome.
